@@ -9,6 +9,7 @@ package c11
 import (
 	"context"
 	"database/sql"
+	"database/sql/driver"
 	"encoding/json"
 	"fmt"
 	"os"
@@ -94,7 +95,7 @@ func scenarios(thorough bool) []Scenario {
 			w.Name, w.Workers = n+"/2workers", 2
 			out = append(out, w)
 		}
-		for _, f := range []string{"connect", "exec"} {
+		for _, f := range []string{"connect", "exec", "exec-badconn"} {
 			for at := 0; at < 2; at++ {
 				if at >= len(streams[n]) {
 					continue
@@ -262,7 +263,7 @@ func runOne(sc Scenario, prefix []int) execResult {
 				kind = "exec"
 			}
 		}
-		if kind == "" || kind != sc.Fault {
+		if kind == "" || kind != strings.TrimSuffix(sc.Fault, "-badconn") {
 			return nil
 		}
 		mu.Lock()
@@ -271,6 +272,9 @@ func runOne(sc Scenario, prefix []int) execResult {
 		counts[kind]++
 		if n == sc.FaultAt {
 			x.hit = true
+			if strings.HasSuffix(sc.Fault, "-badconn") {
+				return driver.ErrBadConn // the connection is lost in the middle of a group
+			}
 			return &mysql.MySQLError{Number: 1040, Message: "Too many connections / statement failed (injected, transient)"}
 		}
 		return nil
